@@ -30,8 +30,6 @@ import (
 	"k8s.io/client-go/informers"
 	kubefake "k8s.io/client-go/kubernetes/fake"
 
-	apiext "github.com/koordinator-sh/koordinator/apis/extension"
-	schedulingv1alpha1 "github.com/koordinator-sh/koordinator/apis/scheduling/v1alpha1"
 	frameworkexthelper "github.com/koordinator-sh/koordinator/pkg/scheduler/frameworkext/helper"
 	kit "github.com/koordinator-sh/koordinator/pkg/verifkit"
 )
@@ -266,8 +264,14 @@ func TestVerifC07NodeGC(t *testing.T) {
 				if p.state != c07Idle {
 					continue
 				}
-				sh := &c07Shape{class: "nvidia-N", memUnit: "ratio", plain: true, requests: corev1.ResourceList{apiext.ResourceNvidiaGPU: c07Q(1)},
-					want: map[schedulingv1alpha1.DeviceType]*c07Want{c07GPU: {count: 1, per: corev1.ResourceList{apiext.ResourceGPUCore: c07Q(100), apiext.ResourceGPUMemoryRatio: c07Q(100)}}}}
+				// a new pod asks for whole card(s) by a resource the node's cards expose
+				sh := c07GenShape(r, n)
+				for tries := 0; tries < 50 && !(sh.plain && sh.want[c07GPU] != nil && sh.memUnit == "ratio"); tries++ {
+					sh = c07GenShape(r, n)
+				}
+				if !sh.plain || sh.want[c07GPU] == nil {
+					continue
+				}
 				heldByForgotten := map[int32]string{}
 				for fp := range forgotten {
 					for _, a := range fp.alloc[c07GPU] {
